@@ -75,7 +75,11 @@ class World:
         if base == "Float":
             if self.nonfinite and h % 5 == 0:
                 return (float("inf"), float("-inf"), float("nan"))[h % 3]
-            return ((h % 4001) - 2000) / 4.0
+            v = ((h % 4001) - 2000) / 4.0
+            if h % 11 == 0:
+                # equal in Python, distinct in JSON
+                v = -0.0 if h & 1 else 0.0
+            return v
         if base == "String":
             return ("s%d" % (h % 997), "", "hé \"q\"", "a\nb")[
                 0 if h % 7 else (h // 7) % 4
@@ -88,7 +92,16 @@ class World:
         if base == "Color":
             return ENUM_VALUES[h % len(ENUM_VALUES)][1]
         if base == "Stamp":
-            return h % 10000
+            # an application-defined scalar takes whatever the application
+            # hands it: ints, and a few floats / bools that compare equal to
+            # small ints yet serialise differently
+            v = h % 10000 if h % 3 else h % 40
+            kind = (h >> 7) % 8
+            if kind == 0:
+                return float(v % 40)
+            if kind == 1:
+                return bool(v & 1)
+            return v
         raise AssertionError(base)
 
     def make_object(self, tname, oid):
